@@ -3,6 +3,7 @@ import Dashu.Proofs.NT.BinGcd
 import Dashu.Proofs.NT.Root
 import Dashu.Proofs.NT.Log
 import Dashu.Proofs.NT.Log2Table
+import Dashu.Proofs.NT.Log2Lift
 /-
   C12 — gcd, integer roots, integer logarithms and `remove` satisfy their defining (in)equalities;
   the only panics are the documented ones.
@@ -179,6 +180,23 @@ theorem remove_spec (x f : Nat) :
 theorem log2_table_sound (n : Nat) (h1 : 256 ≤ n) (h2 : n < 65536) :
     2 ^ log2Fp8 n ≤ n ^ 256 ∧ (n ≠ 2 ^ (bitLen n - 1) → n ^ 256 ≤ 2 ^ ceilLog2Fp8 n) :=
   log2_fp8_sound n h1 h2
+
+/-- the no_std `u8` estimator (operand raised to the 4th power below 16, squared from 16 on, then
+    the table): encloses `log2 i` for every `u8` value that is not handled literally -/
+theorem log2_u8_table_sound (i : Nat) (h1 : 4 ≤ i) (h2 : i < 256) (hp : i ≠ 2 ^ (bitLen i - 1)) (h3 : i ≠ 3) :
+    let k := if i < 16 then 4 else 2
+    2 ^ log2Fp8 (i ^ k) ≤ i ^ (256 * k) ∧ i ^ (256 * k) ≤ 2 ^ ceilLog2Fp8 (i ^ k) :=
+  log2_u8_sound i h1 h2 hp h3
+
+/-- the no_std estimator of wider integers (`u32 … u128`, `usize`; any bit length above 16): table
+    estimate of the top 16 bits plus the shift; the ceiling of the top bits also covers the discarded
+    low bits (`(hi+1)^256 ≤ 2^ceil_log2_fp8(hi)` for all `2^15 < hi < 2^16`) -/
+theorem log2_wide_table_sound (x : Nat) (hbits : 16 < bitLen x) :
+    let shift := bitLen x - 16
+    let hi := x / 2 ^ shift
+    let ub := if hi = 2 ^ 15 then 15 * 256 + 1 else ceilLog2Fp8 hi
+    2 ^ (log2Fp8 hi + 256 * shift) ≤ x ^ 256 ∧ x ^ 256 ≤ 2 ^ (ub + 256 * shift) :=
+  log2_wide_sound x hbits
 
 -- ==================================================================== non-vacuity and regression theorems
 -- (the `fixed = false` variants mirror the code before the `fix:` commits 77711bb, 26bd959, f6db5f8,
